@@ -91,7 +91,13 @@ COLL = [
     {"title": "C", "correlation": {"type": "event_count", "rules": ["rule_a"], "group-by": ["u"], "timespan": "1h", "condition": {"gt": 1}}},
 ]
 RULE2 = {k: v for k, v in RULE.items() if k != "logsource"}  # one structural fault already present
-BASES = [("rule", RULE), ("corr", CORR), ("filter", FILT), ("coll", COLL), ("rule", RULE2)]
+# a collection in which the filter is applied to a rule with matching log source while it is loaded
+COLL2 = [
+    {"title": "T", "id": RULE["id"], "logsource": dict(RULE["logsource"]), "detection": {"sel": {"a": 1}, "condition": "sel"}},
+    FILT,
+    {"title": "G", "logsource": dict(RULE["logsource"]), "filter": {"rules": "any", "selection": {"b": 2}, "condition": "selection"}},
+]
+BASES = [("rule", RULE), ("corr", CORR), ("filter", FILT), ("coll", COLL), ("rule", RULE2), ("coll", COLL2)]
 
 REPL = [None, True, 0, -1, 1.5, "", "x", "not a thing", [], ["x"], [None], [["x"]], {}, {"k": "v"}, {1: 2}, [{"k": "v"}], datetime.date(2024, 1, 1)]
 
@@ -256,6 +262,42 @@ def c07_mutation_pair(p1: int, r1: int, p2: int, r2: int) -> bool:
     return fin(ok)
 
 
+# ---------------------------------------------------------------- several faulty documents in one collection
+LS = {"category": "process_creation", "product": "windows"}
+DOCPOOL = [
+    {"title": "A", "name": "rule_a", "logsource": LS, "detection": {"sel": {"a": 1}, "condition": "sel"}},
+    {"title": "B", "name": "rule_b", "logsource": LS, "detection": {"sel": {"b": 2}, "condition": "sel"}},
+    {"title": "noLS", "detection": {"sel": {"a": 1}, "condition": "sel"}},  # rule-level error
+    {"title": "badstatus", "status": "bogus", "level": "bogus", "logsource": LS, "detection": {"sel": {"a": 1}, "condition": "sel"}},  # two rule-level errors
+    "x",  # collection-level error: document is no map
+    {"action": "bogus"},  # collection-level error: unknown action
+    {"title": "F", "logsource": LS, "filter": {"rules": "any", "selection": {"c": 3}, "condition": "not selection"}},
+    {"title": "brokenF", "logsource": LS, "filter": {"rules": "any", "selection": {"c": 3}}},  # filter without condition
+    {"title": "C", "correlation": {"type": "event_count", "rules": ["rule_a"], "group-by": ["u"], "timespan": "1h", "condition": {"gt": 1}}},
+    {"title": "badC", "correlation": {"type": "bogus", "rules": ["rule_a"], "timespan": "1h", "condition": {"gt": 1}}},
+]
+
+
+def c07_collection_order(n: int, k0: int, k1: int, k2: int) -> bool:
+    """
+    pre: 1 <= n <= 3
+    pre: 0 <= k0 < len(DOCPOOL) and 0 <= k1 < len(DOCPOOL) and 0 <= k2 < len(DOCPOOL)
+    pre: n >= 3 or k2 == 0
+    pre: n >= 2 or k1 == 0
+    post: _
+    """
+    from vlib.params import sel
+
+    nn = sel(n - 1, 3) + 1
+    ks = [sel(k0, len(DOCPOOL)), sel(k1, len(DOCPOOL)), sel(k2, len(DOCPOOL))][:nn]
+    with concrete_section():
+        docs = [copy.deepcopy(DOCPOOL[k]) for k in ks]
+        ok, detail = verdict("coll", docs)
+        if not ok and kf_known("coll", detail):
+            ok = True
+    return fin(ok)
+
+
 def c07_explain(b: int, pi: int, op: int, ri: int) -> str:
     kind, base = BASES[b]
     doc = mutate(base, PATHS[b][pi], op, REPL[ri])
@@ -304,7 +346,8 @@ def c07_strict_doc(kind: str, doc_repr: str) -> bool:
 
 
 OBLIGATIONS = (
-    [Ob("c07_mutation", {"BASE": b}, 900) for b in range(5)]
+    [Ob("c07_mutation", {"BASE": b}, 900) for b in range(6)]
+    + [Ob("c07_collection_order", {}, 900)]
     + [Ob("c07_scalar", {"FIELD": f, "LEN": 1 if f == 9 else (2 if f in (3, 4, 7, 10) else 3)}, 240) for f in range(len(SCALARS))]
     + [Ob("c07_scalar", {"FIELD": f, "LEN": 4}, 1200, tier="thorough", search=True) for f in range(len(SCALARS))]
     + [Ob("c07_mutation_pair", {"BASE": b}, 3000, tier="thorough", search=True) for b in range(3)]
@@ -315,5 +358,6 @@ SELFCHECKS = [
     ("c07_doc", {}, ("corr", repr(CORR)), True),
     ("c07_doc", {}, ("filter", repr(FILT)), True),
     ("c07_doc", {}, ("coll", repr(COLL)), True),
+    ("c07_doc", {}, ("coll", repr(COLL2)), True),
     ("c07_doc", {}, ("rule", repr({"title": "x"})), True),
 ]
